@@ -45,6 +45,7 @@ def check(repo, col, tier):
     _c19.recordings_matching(repo, col, "R-C08-recs")
     col.rule("R-C08-rows", "one row of input values per row index", 4)
     input_rows(repo, col, "R-C08-rows")
+    externals_in_view(repo, col, "R-C08-rows")
     cl = idx.compute_slots(repo, col, "R-C08-space", emit=("jaxedges", "rec_index", "external_inds"))
     _space_uses(repo, col, cl)
     _order(repo, col)
@@ -245,6 +246,39 @@ def _space_uses(repo, col, cl: Classifier):
             uses_index = any(x.op == "attr" and x.name == "index" for x in v.walk())
             col.check(uses_index, R, fi, f"add_clamps: {unparse(s.node)} takes the row labels of the handed-over table",
                       "row labels (.index) of the table", f"stores {v.short()}", node=s.node)
+
+
+def externals_in_view(repo, col, R):
+    """What a view shows of the external inputs: values and row indices are cut with ONE mask (the rows / edges of the view, by the kind
+    of the key), so row k of the values still belongs to index k."""
+    fi = repo.method("View", "_set_externals_in_view")
+    ex = idx.expander(repo, fi)
+    def into(s_, attr):
+        """a subscript store into self.<attr> (the dictionary was created a few lines above, so its term is the fresh dict)"""
+        tg = s_.node.targets[0] if isinstance(s_.node, ast.Assign) and s_.node.targets else (s_.node if isinstance(s_.node, ast.Subscript) else
+                                                                                               getattr(getattr(s_, "stmt", None), "targets", [None])[0])
+        return s_.kind == "sub" and isinstance(tg, ast.Subscript) and isinstance(tg.value, ast.Attribute) and tg.value.attr == attr and \
+            isinstance(tg.value.value, ast.Name) and tg.value.value.id == "self"
+    sv = [s_ for s_ in ex.stores if into(s_, "externals")]
+    si = [s_ for s_ in ex.stores if into(s_, "external_inds")]
+    if not sv or not si:
+        col.unk(R, fi, "a view's inputs: values and indices cut with one mask", "stores not found", node=fi.node)
+        return
+    mask = lambda t: next((x.args[1] for x in t.walk() if x.op == "sub" and T.find(x.args[1], lambda y: y.op == "mcall" and y.name == "isin") is not None), None)
+    mv, mi = mask(sv[-1].value), mask(si[-1].value)
+    ok = mv is not None and mi is not None and mv.key() == mi.key()
+    col.check(ok, R, fi, "a view's inputs: values and indices are cut with one mask", "data[in_view], inds[in_view]",
+              f"values are `{sv[-1].value.short(60)}`, indices `{si[-1].value.short(60)}`: the rows of the values no longer belong to the rows of the indices "
+              f"(delete_stimuli / delete_clamps through the view then remove the wrong inputs)", node=sv[-1].node)
+    if mv is not None:
+        isin = T.find(mv, lambda y: y.op == "mcall" and y.name == "isin")
+        sel = isin.args[-1]
+        kt = sel.op == "ifexp" and {x.name for x in T.find_all(sel.args[1], lambda y: y.op == "attr" and y.name.endswith("_in_view"))} == {"_edges_in_view"} and \
+            {x.name for x in T.find_all(sel.args[2], lambda y: y.op == "attr" and y.name.endswith("_in_view"))} == {"_nodes_in_view"} and \
+            T.find(sel.args[0], lambda y: y.op == "mcall" and y.name == "_edge_state_names") is not None
+        neg = sel.op == "ifexp" and (sel.args[0].op == "not" or (sel.args[0].op == "cmp" and sel.args[0].name == "not in"))
+        col.check(bool(kt) and not neg, R, fi, "a view's inputs are matched with its edges for synaptic keys and with its compartments otherwise", "",
+                  f"membership is tested against `{sel.short(90)}`", node=sv[-1].node)
 
 
 def input_rows(repo, col, R):
